@@ -155,6 +155,10 @@ class FakeStream(trio.abc.HalfCloseableStream):
                     self.write_fail_armed = False
                     self.broken = True
                     self.rec.lost_at = self.world.now()
+                    # a failed send means the peer reset the connection: the read side sees it too
+                    if self.terminal is None:
+                        self.terminal = BrokenPipeError(32, "Broken pipe")
+                    self._recv_lot.unpark_all()
                     raise trio.BrokenResourceError("socket connection broken: [Errno 32] Broken pipe")
                 if not self.peer_paused:
                     break
